@@ -380,6 +380,19 @@ def _default(repo: Repo, rep: Report) -> None:
     classes = [n for n in ast.walk(fn) if isinstance(n, ast.ClassDef)]
     cc = next((c for c in classes if any(isinstance(s, ast.ClassDef) and s.name == "Config" for s in c.body)), None)
     if cc is None:
+        # the throw-away class may have been moved into a module-level helper that _default calls: follow one level
+        for call in ast.walk(fn):
+            if isinstance(call, ast.Call) and isinstance(call.func, ast.Name):
+                callee = repo.funcs.get(f"{M_SCHEMA}::{call.func.id}")
+                if callee is None:
+                    continue
+                for c in (n for n in ast.walk(callee.node) if isinstance(n, ast.ClassDef)):
+                    if any(isinstance(x, ast.ClassDef) and x.name == "Config" for x in c.body):
+                        cc, fn = c, callee.node
+                        break
+            if cc is not None:
+                break
+    if cc is None:
         rep.undecide("R20.3", "throw-away class with a nested Config not found in _default")
         return
     cfg = next(s for s in cc.body if isinstance(s, ast.ClassDef) and s.name == "Config")
@@ -663,3 +676,19 @@ def run(repo, rep, tier):  # noqa: F811 -- round-6 remedies, batch 3
 _ADDR6D = " R20.12: the re-entry guard of on_type_with_overridden_serialization compares the override's return type with instance.type (the attribute update_type replaces). R20.13: Instance.derive resolves forward references in the globals of self.type."
 EXPLANATION += _ADDR6D
 LEVEL_TEXT += _ADDR6D
+
+
+_run_before_r7a = run
+
+
+def run(repo, rep, tier):  # noqa: F811 -- round-7 remedies / borrowings
+    _run_before_r7a(repo, rep, tier)
+    if getattr(rep, "borrowed", False):
+        return
+    from ..core import round7 as _r7
+    _r7.no_memoised_schema_functions(repo, rep, "R20.14")
+
+
+_ADD_R7A = ' R20.14: no function of mashumaro/jsonschema taking arguments is memoised with lru_cache / cache (arguments are types and Annotated metadata, legally unhashable; cached_property is the accepted idiom).'
+EXPLANATION += _ADD_R7A
+LEVEL_TEXT += _ADD_R7A
